@@ -136,7 +136,11 @@ SECTION_LAWS = {
     "const": lambda x: 0.0 * x + 1.5,
     "parab": lambda x: 1.0 + 0.3 * x ** 2,
     "bump": lambda x: 1.0 - 0.5 * np.exp(-(x - 1.0) ** 2),
+    "bump_m": lambda x: 1.0 - 0.5 * np.exp(-(-x - 1.0) ** 2),      # mirror image of "bump"
+    "lin": lambda x: 1.0 + 0.25 * x,
+    "lin_m": lambda x: 1.0 - 0.25 * x,
 }
+LAW_MIRROR = {"const": "const", "parab": "parab", "bump": "bump_m", "bump_m": "bump", "lin": "lin_m", "lin_m": "lin"}
 
 
 def fluxes(model):
